@@ -245,7 +245,12 @@ def _san_shard(args):
             W = coded_weights(od, kh, kw, idp, 0)
             buf += b"R" + struct.pack("<12i", iu, ou, od, kh, kw, idp, bd, int(mode == "dw"), int(mode == "part"), bits, 8 // dil[1], 8 // dil[0]) + W.tobytes()
     env = dict(os.environ, ASAN_OPTIONS="detect_leaks=0:abort_on_error=0:halt_on_error=1", UBSAN_OPTIONS="print_stacktrace=1:halt_on_error=1")
-    r = subprocess.run([exe], input=bytes(buf), capture_output=True, env=env, timeout=1200)
+    try:
+        r = subprocess.run([exe], input=bytes(buf), capture_output=True, env=env, timeout=600)
+    except subprocess.TimeoutExpired as e:
+        done = (e.stdout or b"").decode("utf-8", "replace").splitlines()
+        k = len(done)
+        return k, [(records[k] if k < len(records) else None, "sanitizer driver did not return within 600 s at record %d (codec loops on this input)" % k)]
     lines = r.stdout.decode("utf-8", "replace").splitlines()
     bad = []
     if r.returncode != 0 or len(lines) != len(records):
@@ -255,6 +260,39 @@ def _san_shard(args):
         if line.startswith("mismatch"):
             bad.append((rec, "driver: " + line))
     return len(lines), bad
+
+
+def _guard(fn, args, ident, per_item=None):
+    """runs one shard in a forked child with a time limit: a codec that loops on a stream (encoder or decoder) must become a
+    finding, not a hung check.  On a timeout the shard's items are retried one by one to name the culprit."""
+    from .. import isolate
+
+    res, _ = isolate.run_forked(fn, (args,), timeout=600, capture=False)
+    if res[0] == "ok":
+        return res[1]
+    bad = []
+    if per_item is not None:
+        for it in per_item:
+            r1, _ = isolate.run_forked(fn, ([it],), timeout=30, capture=False)
+            if r1[0] == "ok":
+                bad += list(r1[1][1])
+            else:
+                bad.append((it, "codec did not return for this input (%s after 30 s)" % r1[0] if r1[0] == "timeout" else "codec process %s" % (r1[:3],)))
+    else:
+        bad.append((ident, "codec did not return (%s) for some input of shard %s" % (res[0], ident)))
+    return 0, bad
+
+
+def _short_shard_g(args):
+    return _guard(_short_shard, args, ("shard",) + tuple(args[1:]))
+
+
+def _family_shard_g(points):
+    return _guard(_family_shard, points, None, per_item=points)
+
+
+def _reorder_shard_g(points):
+    return _guard(_reorder_shard, points, None, per_item=points)
 
 
 def replay(ctx, case):
@@ -293,19 +331,19 @@ def run(ctx):
         for L in range(1, maxlen + 1):
             for first in alpha:
                 shards.append((alpha, L, first))
-    for n, bad in pmap(_short_shard, shards):
+    for n, bad in pmap(_short_shard_g, shards):
         ctx.count("short_sequences", n)
         for seq, p in bad:
             ctx.violation("roundtrip|short|%s" % p.split("(")[0][:40], "%s for sequence %s" % (p, list(seq)), dict(kind="seq", seq=list(seq)))
     # (b)
     pts = family_points(ctx.tier)
-    for n, bad in pmap(_family_shard, [pts[i:i + 40] for i in range(0, len(pts), 40)]):
+    for n, bad in pmap(_family_shard_g, [pts[i:i + 40] for i in range(0, len(pts), 40)]):
         ctx.count("family_vectors", n)
         for pt, p in bad:
             ctx.violation("roundtrip|family|profile=%s|%s" % (pt[3], p.split("(")[0][:40]), "%s for family (length %d, palette %d, zero-run %d, %s)" % (p, *pt), dict(kind="family", point=list(pt)))
     # (c)
     rp = reorder_points(ctx.tier)
-    for n, bad in pmap(_reorder_shard, [rp[i:i + 60] for i in range(0, len(rp), 60)]):
+    for n, bad in pmap(_reorder_shard_g, [rp[i:i + 60] for i in range(0, len(rp), 60)]):
         ctx.count("reorder_volumes", n)
         for pt, p in bad:
             ctx.violation("reorder|%s|bits%d|%s" % (pt[3], pt[2], p.split("(")[0][:40]), "%s for (ifm_ublock %d, ofm_ublock %d, bits %d, %s, dilation %s, kernel %dx%d, ifm depth %d, ofm depth %d, block depth %d)" % (p, *pt),
